@@ -144,6 +144,46 @@ impl Kit {
     }
 }
 
+/// Ciphertexts with special structure — all of them valid, all obtained through public evaluator calls — together with the
+/// plaintext they encrypt (BFV/BGV: coefficient vector mod t). Random data essentially never has this structure
+/// (probability q^-N), so properties quantified over "all ciphertexts" get them as explicit workload items:
+///   zero            x - x                      every word of both polynomials is 0; encrypts 0
+///   transparent     (x - x) + p                c1 = 0, c0 carries p without noise; encrypts p
+///   zero_tail3      (a*b + c) - a*b            size 3 with an all-zero last polynomial; bit-identical to c otherwise; encrypts c
+///   doubled         x + x                      every residue even ...; encrypts 2x  (control: ordinary structure)
+pub struct Special { pub name: &'static str, pub ct: Ciphertext, pub coeffs: Vec<u64> }
+
+pub fn special_exact(kit: &Kit, a: &[u64], b: &[u64], c: &[u64]) -> Vec<Special> {
+    let t = kit.t(); let n = kit.n(); let ev = &kit.eval;
+    let pad = |v: &[u64]| { let mut w = v.to_vec(); w.resize(n, 0); w };
+    let enc = |v: &[u64]| lib(|| kit.enc.encrypt_new(&kit.plain_from_coeffs(v)));
+    let mut out = vec![];
+    let (Ok(ca), Ok(cb), Ok(cc)) = (enc(a), enc(b), enc(c)) else { return out };
+    if let Ok(z) = lib(|| ev.sub_new(&ca, &ca)) {
+        out.push(Special { name: "zero", ct: z.clone(), coeffs: vec![0; n] });
+        if let Ok(tr) = lib(|| ev.add_plain_new(&z, &kit.plain_from_coeffs(c))) { out.push(Special { name: "transparent", ct: tr, coeffs: pad(c) }); }
+    }
+    if let Ok(zt) = lib(|| { let ab = ev.multiply_new(&ca, &cb); let s = ev.add_new(&ab, &cc); ev.sub_new(&s, &ab) }) { out.push(Special { name: "zero_tail3", ct: zt, coeffs: pad(c) }); }
+    if let Ok(d) = lib(|| ev.add_new(&ca, &ca)) { out.push(Special { name: "doubled", ct: d, coeffs: pad(a).iter().map(|&x| crate::refm::addmod(x % t, x % t, t)).collect() }); }
+    out
+}
+
+/// CKKS counterpart (slot vectors, one common scale): zero, transparent, zero_tail3
+pub struct SpecialC { pub name: &'static str, pub ct: Ciphertext, pub slots: Vec<num_complex::Complex64> }
+pub fn special_ckks(kit: &Kit, a: &[num_complex::Complex64], b: &[num_complex::Complex64], c: &[num_complex::Complex64], scale: f64) -> Vec<SpecialC> {
+    let ev = &kit.eval; let Some(en) = kit.ckks.as_ref() else { return vec![] };
+    let enc = |v: &[num_complex::Complex64], s: f64| lib(|| kit.enc.encrypt_new(&en.encode_c64_array_new(v, None, s)));
+    let mut out = vec![];
+    let (Ok(ca), Ok(cb)) = (enc(a, scale), enc(b, scale)) else { return out };
+    if let Ok(z) = lib(|| ev.sub_new(&ca, &ca)) {
+        out.push(SpecialC { name: "zero", ct: z.clone(), slots: vec![num_complex::Complex64::new(0.0, 0.0); a.len()] });
+        if let Ok(tr) = lib(|| ev.add_plain_new(&z, &en.encode_c64_array_new(c, None, scale))) { out.push(SpecialC { name: "transparent", ct: tr, slots: c.to_vec() }); }
+    }
+    // (a*b + c') - a*b with c' encrypted at the product scale
+    if let Ok(zt) = lib(|| { let ab = ev.multiply_new(&ca, &cb); let cc = kit.enc.encrypt_new(&en.encode_c64_array_new(c, None, ab.scale())); let s = ev.add_new(&ab, &cc); ev.sub_new(&s, &ab) }) { out.push(SpecialC { name: "zero_tail3", ct: zt, slots: c.to_vec() }); }
+    out
+}
+
 /// plaintext -> full-length coefficient vector (zero padded)
 pub fn plain_coeffs(p: &Plaintext, n: usize) -> Vec<u64> {
     let mut v = p.data().clone(); v.resize(n, 0); v
